@@ -20,7 +20,7 @@ RULE = ('scenario = seeded DAT model (declarations in seeded order with spaces/t
         'same content); whitespace changes. evaluations counts parses; non-trivial = corrupted parses whose line kind x corruption kind x position class is hit; '
         'distinct = distinct (corruption kind, line position class, outcome, rows class, separator class) tuples. exhaustive per base file over lines x kinds')
 REAL = ['TotalDepth.DAT.DAT_parser.parse_file / can_parse_file', 'TotalDepth.common.LogPass.FrameArray / FrameChannel']
-STUB = ['file object -> io.StringIO over the generated text', 'file writer -> content model worlds/dat.py']
+STUB = ['file object -> io.StringIO over the generated text, or (30 %) a real io.TextIOWrapper over its bytes in the state a caller left it in (fresh, read, readline, iterated)', 'file writer -> content model worlds/dat.py']
 ASSUMPTIONS = [
     'corruptions whose outcome the statement leaves open are not generated (nan, inf, 1_0, out-of-range dates, a header name REPLACED by a repeat of another or repeated in a file without data rows, blank lines); a name INSERTED a second time above unchanged data rows is generated: those rows no longer match the header',
     'a DAT error is an ExceptionDAT subclass raised by parse_file; anything else raised, or a successful parse where an error is expected, is a violation',
@@ -28,7 +28,7 @@ ASSUMPTIONS = [
     'years 1951..2050 only (two digit year convention)',
 ]
 PROBES = ['copy_token_error', 'copy_token_changed', 'drop_col_first', 'drop_col_middle', 'drop_col_last', 'add_col', 'letters_in_float', 'bad_utim', 'bad_date', 'bad_time', 'undeclared_header_name',
-          'delete_used_decl', 'delete_unused_decl', 'delete_header', 'repeat_header_name', 'whitespace', 'digit_change', 'zero_rows', 'tab_declarations', 'date_style_A', 'date_style_B',
+          'delete_used_decl', 'delete_unused_decl', 'delete_header', 'repeat_header_name', 'text_file_object_fresh', 'text_file_object_read', 'text_file_object_readline', 'text_file_object_iterated', 'whitespace', 'digit_change', 'zero_rows', 'tab_declarations', 'date_style_A', 'date_style_B',
           'healthy_can_parse']
 
 DAT = None
@@ -86,7 +86,10 @@ def enumerate_corruptions(model, rng):
 def generate(seed, tier):
     rng = seeds.Rng(seed)
     model = D.gen_model(rng)
-    return {'world': 'dat', 'model': model, 'corruptions': enumerate_corruptions(model, rng)}
+    sc = {'world': 'dat', 'model': model, 'corruptions': enumerate_corruptions(model, rng)}
+    if rng.chance(0.3):
+        sc['file_object'] = rng.pick(['fresh', 'read', 'readline', 'iterated'])
+    return sc
 
 
 def apply(model, corr):
@@ -179,9 +182,29 @@ def compare(res, fa, model, facts, what):
                 return
 
 
+def text_file(text, flavour):
+    """The text file object handed to the parser.  'stringio': io.StringIO.  Otherwise a real text file object
+    (io.TextIOWrapper over the encoded bytes, as open() gives) in the state the caller left it in: 'fresh', 'read' (some
+    characters read), 'readline' (first line read), 'iterated' (first line taken with next(), as a caller peeking at the file
+    does; tell() is then disabled but seek(0) is legal)."""
+    if not flavour or flavour == 'stringio':
+        return io.StringIO(text)
+    f = io.TextIOWrapper(io.BytesIO(text.encode('ascii')), encoding='ascii', newline='')
+    if flavour == 'read':
+        f.read(7)
+    elif flavour == 'readline':
+        f.readline()
+    elif flavour == 'iterated':
+        next(f, None)
+    return f
+
+
 def execute(scenario):
     res = runner.Result()
     model = scenario['model']
+    flavour = scenario.get('file_object', 'stringio')
+    if flavour != 'stringio':
+        res.probe('text_file_object_' + flavour)
     nrows = len(model['rows'])
     if nrows == 0:
         res.probe('zero_rows')
@@ -196,13 +219,13 @@ def execute(scenario):
     n_eval = 1
     facts = {'corruption': 'none', 'rows': min(nrows, 2)}
     try:
-        fa = DAT.parse_file(io.StringIO(text))
+        fa = DAT.parse_file(text_file(text, flavour))
         compare(res, fa, model, facts, 'healthy file')
     except Exception as err:
         res.violation('healthy-rejected', f'healthy DAT text rejected: {type(err).__name__}: {err}', exc=type(err).__name__, **facts)
     if nrows >= 1:
         res.probe('healthy_can_parse')
-        if not DAT.can_parse_file(io.StringIO(text)):
+        if not DAT.can_parse_file(text_file(text, flavour)):
             res.violation('can-parse-healthy', 'can_parse_file() is false for a healthy file with data rows', **facts)
     res.ev('healthy', nrows, len(model['header']))
     # ---- every single-line corruption
@@ -222,7 +245,7 @@ def execute(scenario):
             pos = 'first' if target[1] == 0 else ('last' if target[1] == nrows - 1 else 'middle')
         facts = {'corruption': kind, 'line': target[0], 'pos': pos, 'rows': min(nrows, 2)}
         try:
-            fa = DAT.parse_file(io.StringIO(text2))
+            fa = DAT.parse_file(text_file(text2, flavour))
             outcome = 'parsed'
         except DAT.ExceptionDAT as err:
             fa, outcome = None, 'dat-error'
@@ -263,7 +286,7 @@ def execute(scenario):
             at_or_before_first_row = target[0] in ('decl', 'header') or (target[0] == 'row' and target[1] == 0)
             if at_or_before_first_row:
                 try:
-                    cp = DAT.can_parse_file(io.StringIO(text2))
+                    cp = DAT.can_parse_file(text_file(text2, flavour))
                 except Exception as err:
                     res.violation('can-parse-raises', f'corruption {corr}: can_parse_file raised {type(err).__name__}: {err}', exc=type(err).__name__, **facts)
                     cp = False
